@@ -132,7 +132,8 @@ def renderReq (o : Opts) : String :=
   let sel := match o.select with
     | none => "-"
     | some l => let s := "+".intercalate (l.map String.ofList); if s.isEmpty then "~" else s
-  s!"F={fs} S={sel} W={strOr o.fwd} C={strOr o.count} L={o.limit} O={o.offset} R={joinC "+" o.order} B={if o.bypass then "1" else "0"}"
+  let bit := fun (b : Bool) => if b then "1" else "0"
+  s!"F={fs} S={sel} W={strOr o.fwd} C={strOr o.count} L={o.limit} O={o.offset} R={joinC "+" o.order} B={bit o.bypass} X={bit o.includeTrash}{bit o.includeOldVersions}{bit o.distinct}"
 
 def renderResp : Resp → String
   | .error s => s!"E{s}"
@@ -173,9 +174,19 @@ def filterOf? (s : List Char) : Option Filter :=
     | none => none
   | none => none
 
+def bitOf? (c : Char) : Option Bool := if c == '0' then some false else if c == '1' then some true else none
+
 def optsOf? (s : List Char) (filters : List Filter) : Option Opts :=
-  match splitC '/' s with
-  | [count, limit, offset, order, select, bypass, fwd] =>
+  let parts := splitC '/' s
+  -- optional 8th component: include_trash, include_old_versions, distinct as three bits
+  let flags? : Option (Bool × Bool × Bool) :=
+    match parts.drop 7 with
+    | [] => some (false, false, false)
+    | [[a, b, c]] => do pure ((← bitOf? a), (← bitOf? b), (← bitOf? c))
+    | _ => none
+  match flags?, parts.take 7 with
+  | none, _ => none
+  | some (fT, fO, fD), [count, limit, offset, order, select, bypass, fwd] =>
     match intOf? limit, intOf? offset with
     | some l, some off =>
       let b? : Option Bool := if bypass == ['0'] then some false else if bypass == ['1'] then some true else none
@@ -186,9 +197,10 @@ def optsOf? (s : List Char) (filters : List Filter) : Option Opts :=
           order := listOf '+' order
           select := if select == ['-'] then none else some (splitC '+' select)
           bypass := b
-          fwd := if fwd == ['-'] then [] else fwd }
+          fwd := if fwd == ['-'] then [] else fwd
+          includeTrash := fT, includeOldVersions := fO, distinct := fD }
     | _, _ => none
-  | _ => none
+  | _, _ => none
 
 def kinds : List String := ["coll", "ctr", "cr", "grp", "spec", "user"]
 
